@@ -192,6 +192,12 @@ def check_c15(exe, tier, seed, verdict):
             x = recs[len(recs) // 2]
             samples.append({"option": optstr, "file": file_bytes(x["lines"]).decode("latin-1"), "expected": x["exp"]})
     ro, nopt, okopt, nnopt, totopt = check_option_strings(exe, tier, seed, verdict)
+    # the options apply to EVERY file of a layered read: random trees of files of the option's grammar, read through an
+    # option object, predicted by the root specification (Econf!ReadDirsResultOpt)
+    from . import p_econf
+    nmix = 150 if tier == "quick" else 3000
+    okopt += p_econf.run_mixed(exe, random.Random(seed + 15), nmix, verdict, "C15")
+    nopt += nmix
     states += ro.distinct
     nfiles = 200 if tier == "quick" else 4000
     files = p_parser.gen_random_files(seed + 15, nfiles, 12 if tier == "quick" else 30, opts=("join", "python"))
